@@ -349,7 +349,9 @@ def _ex_squash():
     strings = ["{[#A][#B]}.{#A=CC[!],#B=[!]CO}", "{[#A][#B][#C]}.{#A=CC[!a],#B=[!a]CC[!b],#C=[!b]CO}",
                "{[#A]1[#B][#C]1}.{#A=[!a]C[!c]C,#B=[!a]C[!b]O,#C=[!b]C[!c]N}", "{[#A]1[#B][#C]1}.{#A=[$]CC[!],#B=[$]CC[!],#C=[!][!]CN}",
                "{[#B]([#E])([#D])[#A]}.{#E=FC[!a],#D=NC[!b],#B=C[!a][!b][!c],#A=OC[!c]}", "{[#E]1.[#D][#B]1[#A]}.{#E=FC[!a],#D=NC[!b],#B=C[!a][!b][!c],#A=OC[!c]}",
-               "{[#A][#B]}.{#A=CC[$],#B=[$]CO}", "{[#A][#B]}.{#A=[#a][#b][!],#B=[!][#b][#c]}"]
+               "{[#A][#B]}.{#A=CC[$],#B=[$]CO}", "{[#A][#B]}.{#A=[#a][#b][!],#B=[!][#b][#c]}",
+               "{[#A]1([#E][#B][#C]12)[#S]2}.{#A=[!][!]CC[>],#E=[<]C[>],#B=[<]CC[!],#C=[!][!][!]CF,#S=[!][!]CO}",
+               "{[#A]1[#B][#D][#C]1}.{#A=[$]CC[!],#B=[$]O[$],#D=[$]CC[!],#C=[!][!]C(C)C}"]
     for s in strings:
         try:
             res = MoleculeResolver.from_string(s, last_all_atom=('#a' not in s))
